@@ -218,9 +218,20 @@ class Ctx:
             if extra or not axiom_names:
                 self.proof_broken("Print Assumptions is not closed: %s" % (extra or out[-800:]), out[-3000:], props_file)
                 return False
+        if self.tier == "thorough":
+            # the independent checker re-checks the compiled property file and everything it depends on
+            mod = "GJS." + props_file[:-2].replace("/", ".")
+            p3 = self.sh(["coqchk", "-silent", "-o", "-Q", COQ, "GJS", mod], cwd=COQ, timeout=3000)
+            o3 = p3.stdout + p3.stderr
+            m3 = re.search(r"\* Axioms:\s*(.*?)\n\s*\n\s*\* Constants/Inductives relying on type-in-type:\s*(.*?)\n\s*\n\s*\* Constants/Inductives relying on unsafe \(co\)fixpoints:\s*(.*?)\n\s*\n\s*\* Inductives whose positivity is assumed:\s*(.*?)\n", o3, re.S)
+            if p3.returncode != 0 or not m3 or any(g.strip() != "<none>" for g in m3.groups()):
+                self.proof_broken("coqchk does not accept %s with an empty context summary" % mod, o3[-3000:], props_file)
+                return False
+            self.cov["coqchk"] = {"module": mod, "axioms": "<none>", "type_in_type": "<none>", "unsafe_fixpoints": "<none>", "assumed_positivity": "<none>"}
         self.cov["obligations"] = obligations
         self.cov["discharged"] = obligations
-        self.cov["checker_cmd"] = "make -C coq -j16 && coqc -Q coq GJS coq/%s  (Coq 8.16.1 kernel; full .vo build)" % props_file
+        self.cov["checker_cmd"] = "make -C coq -j16 && coqc -Q coq GJS coq/%s  (Coq 8.16.1 kernel; full .vo build)%s" % (
+            props_file, " && coqchk -silent -o -Q coq GJS GJS.%s" % props_file[:-2].replace("/", ".") if self.tier == "thorough" else "")
         self.cov["print_assumptions"] = {"theorems": n_pa, "closed": closed, "axioms": axiom_names}
         self.cov["cone"] = cone
         self.cov["proof_wall_s"] = round(time.time() - t, 1)
